@@ -12,6 +12,8 @@ SHAPES = {
     'origin-first': [('OriginSet', f'None:{S}'), ('ChannelSet', f'None:{S}'), ('FrameSet', f'None:{S}')],
     'origin-last-two-origin-sets': [('AxisSet', f'None:{S}'), ('ChannelSet', f'None:{S},CH2:{S}'), ('FrameSet', f'None:{S}'), ('NoFormatSet', f'None:{S}'),
                                     ('OriginSet', f'None:{S},EXTRA:{S}')],
+    # WELL-REFERENCE shares the logical record type OLR with ORIGIN but is not an origin set: it must come AFTER the origin sets
+    'well-reference-registered-before-the-origin': [('WellReferencePointSet', f'None:{S}'), ('ChannelSet', f'None:{S}'), ('OriginSet', f'None:{S}'), ('FrameSet', f'None:{S}')],
     'origin-in-the-middle': [('FileHeaderSet', f'None:{S}'), ('ZoneSet', f'Z:{S}'), ('OriginSet', f'None:{S}'), ('ChannelSet', f'None:{S}'), ('FrameSet', f'None:{S}')],
 }
 
@@ -37,7 +39,7 @@ for _shape, _order in SHAPES.items():
         params={'multi_frame_data_objects': 'items[list[opq:mfd]*2,list[opq:mfd]*1]'}, returns='none',
         ensures=[('per-logical-file-header-origin-sets-other-sets-noformat-frame-data-in-creation-order',
                   '__out__ == (' + ', '.join(_exp0 + _exp1) + ')')])
-OPQ_MODELS = {'eflrset': {'__isinstance__': {}, '__truthy__': True}, 'nfdata': {'__isinstance__': {}, '__truthy__': True},
+OPQ_MODELS = {'iterator': {'__isinstance__': {}, '__truthy__': True}, 'eflrset': {'__isinstance__': {}, '__truthy__': True}, 'nfdata': {'__isinstance__': {}, '__truthy__': True},
               'mfd': {'__isinstance__': {}, '__truthy__': True}}
 
 ZSET = {'cls': 'ZoneSet', 'fields': {'set_name': 'str?', '_eflr_item_list': 'seqlist[ref]'}}
